@@ -36,10 +36,10 @@ Proof. vm_compute. reflexivity. Qed.
 
 (** all priorities equal: still a heap (c16_heap_preserved needs no hypothesis on the stream) *)
 Example ex_ties : Forall Heap (final0 [7; 7; 7; 7] h1).
-Proof. apply (c16_heap_preserved _ _ _ _ isz_update isz_push isize isz_modify ix ism). Qed.
+Proof. unfold final0, run0. apply (c16_heap_preserved _ _ _ _ isz_update isz_push isize isz_modify ix ism). Qed.
 
 (** c16_height_partial at k = 3 *)
 Example ex_height : height (fam step_append (2 ^ 3)) <= 5 * Z.log2 (2 ^ 3 + 1) + 20.
-Proof. apply (c16_height_partial 3). lia. Qed.
+Proof. assert (Hk : 0 <= 3 <= 14) by lia. destruct (c16_height_partial 3 Hk) as ((H1 & _) & _). exact H1. Qed.
 Example ex_height_value : height (fam step_append 8) = 5 /\ height (fam step_rotate 1024) = 23.
 Proof. split; vm_compute; reflexivity. Qed.
